@@ -500,6 +500,54 @@ fn returning_programs() -> Vec<(String, String, String)> {
     out
 }
 
+/// further closure programs: (name, text, expected stdout)
+fn more_programs() -> Vec<(String, String, String)> {
+    let mut out = Vec::new();
+    let show = "trait Show { fn show(Self) -> string; }\nimpl Show for int32 { fn show(self: int32) -> string { \"i\" + int32_to_string(self) } }\nimpl Show for bool { fn show(self: bool) -> string { \"b\" + bool_to_string(self) } }\nimpl Show for string { fn show(self: string) -> string { \"s\" + self } }\n";
+    // a closure inside a generic function whose own signature does not mention the type parameter: only
+    // what it captures (or calls) depends on the instance
+    for (cn, closure, call, one) in [
+        ("captures-a-value-of-T", "let f = |k: int32| if k < n { Show::show(x) } else { \"late\" };", "f(1)", "§"),
+        ("captures-a-value-of-T-no-parameters", "let f = || Show::show(x) + \"!\";", "f()", "§!"),
+        ("captures-a-vector-of-T", "let v: Vec[T] = vec_push(vec_new(), x);\n    let f = |k: int32| { let e: T = vec_get(v, 0); Show::show(e) + int32_to_string(k) };", "f(n)", "§2"),
+        ("calls-a-generic-function-at-T", "let f = |k: int32| pick(x, k);", "f(n)", "§"),
+        ("passed-on-as-a-value", "let f = |k: int32| Show::show(x) + int32_to_string(k);", "ap(f, n)", "§2"),
+        ("two-closures-one-signature", "let f = |k: int32| Show::show(x);\n    let g = |k: int32| Show::show(x) + int32_to_string(k + n);", "f(1) + g(1)", "§§3"),
+    ] {
+        let text = format!("{}fn pick[U: Show](u: U, k: int32) -> string {{ Show::show(u) }}\nfn ap(f: (int32) -> string, a: int32) -> string {{ f(a) }}\nfn later[T: Show](x: T, n: int32) -> string {{\n    {}\n    {}\n}}\nfn main() {{\n    string_println(later(7, 2));\n    string_println(later(\"seven\", 2));\n    string_println(later(true, 2));\n    string_println(later(8, 2))\n}}\n", show, closure, call);
+        let expected: String = ["i7", "sseven", "btrue", "i8"].iter().map(|v| format!("{}\n", one.replace('§', v))).collect();
+        out.push((format!("signature-without-the-type-parameter;{}", cn), text, expected));
+    }
+    // a let-bound closure used as a function value inside a block and again after it (or in the sibling block)
+    for (bn, body, expected) in [
+        ("if-branch-then-after", "let a = if k > 2 { ap(add, 1) } else { 0 };\n    let b = ap(add, a);\n    string_println(int32_to_string(b));", "7\n"),
+        ("else-branch-then-after", "let a = if k > 5 { 0 } else { ap(add, 1) };\n    let b = ap(add, a);\n    string_println(int32_to_string(b));", "7\n"),
+        ("both-branches", "let a = if k > 2 { ap(add, 1) } else { ap(add, 2) };\n    string_println(int32_to_string(a));", "4\n"),
+        ("both-branches-then-after", "let a = if k > 5 { ap(add, 1) } else { ap(add, 2) };\n    let b = ap(add, a);\n    string_println(int32_to_string(b));", "8\n"),
+        ("loop-body-then-after", "let i = ref(0);\n    while ref_get(i) < 2 {\n        ref_set(i, ap(add, ref_get(i)));\n    };\n    string_println(int32_to_string(ap(add, ref_get(i))));", "6\n"),
+        ("loop-condition-and-body", "let i = ref(0);\n    while ap(add, ref_get(i)) < 9 {\n        ref_set(i, ap(add, ref_get(i)));\n    };\n    string_println(int32_to_string(ref_get(i)));", "6\n"),
+        ("two-match-arms", "let a = match k { 1 => ap(add, 1), 3 => ap(add, 10), _ => 0 };\n    string_println(int32_to_string(a));", "13\n"),
+        ("match-arm-then-after", "let a = match k { 3 => ap(add, 10), _ => 0 };\n    string_println(int32_to_string(ap(add, a)));", "16\n"),
+        ("inside-another-closure-then-after", "let h = |z: int32| ap(add, z);\n    string_println(int32_to_string(h(1) + ap(add, 2)));", "9\n"),
+        ("stored-in-a-branch-then-called-by-name", "let t: ((int32) -> int32, int32) = if k > 2 { (add, 1) } else { (add, 2) };\n    let g: (int32) -> int32 = t.0;\n    string_println(int32_to_string(g(t.1) + add(10)));", "17\n"),
+        ("twice-in-one-expression", "string_println(int32_to_string(ap(add, 1) + ap(add, 2)));", "9\n"),
+    ] {
+        let text = format!("fn ap(f: (int32) -> int32, x: int32) -> int32 {{ f(x) }}\nfn main() {{\n    let k = 3;\n    let add = |x: int32| x + k;\n    {}\n}}\n", body);
+        out.push((format!("value-use-in-a-block;{}", bn), text, expected.to_string()));
+    }
+    // two packages with the same binder names, indices and closure types: each function runs its own closure
+    for (pn, main_body, lib_body, expected) in [
+        ("no-captures", "let f = |x: int32| x + 1; f(n)", "let f = |x: int32| x * 2; f(n)", "11\n20\n"),
+        ("same-captures", "let k = 3; let f = |x: int32| x + k; f(n)", "let k = 3; let f = |x: int32| x * k; f(n)", "13\n30\n"),
+        ("passed-on-as-values", "let k = 3; let f = |x: int32| x + k; ap(f, n)", "let k = 3; let f = |x: int32| x * k; ap(f, n)", "13\n30\n"),
+        ("anonymous", "ap(|x: int32| x + 1, n)", "ap(|x: int32| x * 2, n)", "11\n20\n"),
+    ] {
+        let text = format!("package Main\nimport Lib\n\nfn ap(f: (int32) -> int32, a: int32) -> int32 {{ f(a) }}\nfn step(n: int32) -> int32 {{ {} }}\nfn main() {{\n    string_println(int32_to_string(step(10)));\n    string_println(int32_to_string(Lib::step(10)))\n}}\n//// FILE Lib/lib.gom\npackage Lib\n\nfn ap(f: (int32) -> int32, a: int32) -> int32 {{ f(a) }}\nfn step(n: int32) -> int32 {{ {} }}\n", main_body, lib_body);
+        out.push((format!("same-binders-in-two-packages;{}", pn), text, expected.to_string()));
+    }
+    out
+}
+
 pub struct Closures;
 
 fn capture_sets(tier: Tier) -> Vec<Vec<&'static str>> {
@@ -529,7 +577,7 @@ impl Family for Closures {
         &["C08", "C01", "C02", "C03", "C04"]
     }
     fn rule(&self) -> &'static str {
-        "capture sets (all singles over {none, fn param, let, pattern variable, Ref cell, another closure, top-level fn, string let, function-typed parameter called in callee position only, local alias of a top-level fn called in callee position only}; selected pairs in quick, all pairs in thorough) x 27 flows of the closure value from creation to call (returned by a function directly, in a tuple, in a tuple nested two and three deep and in either position, in a tuple that a second function wraps in another; let, rebind, tuple element, nested tuple literal / tuple of a tuple-typed variable / tuple of a call result, struct field in first / second / third position, array element, Ref content, Vec element, returned from fn, returned from closure, argument, argument called twice, branch result of if/match, generic apply, …) x variants {plain, captured name shadowed after creation, captured Ref mutated from both sides, called twice} x nesting depth 1 (thorough: 1-2). plus 32 programs with closures inside a generic function instantiated at three types (captures: none / values whose types do not mention T / a value of type T; body: a trait call on the parameter in path or dot form, followed by a concatenation, used twice; one let-bound closure or two closures in one function). plus functions that return a closure: 3 functions (plain, generic, returning the result of a second such function) x 6 uses of the result (bound then called, called directly 'mk(3)(4)', two results, inside another closure, as a tuple element, in a loop) x 4 places of the function (before its caller, after it, in another file of the package, in an imported package), and 3 programs with a closure that returns a closure. non-trivial = programs whose closure captures at least one variable; distinct = distinct source text"
+        "capture sets (all singles over {none, fn param, let, pattern variable, Ref cell, another closure, top-level fn, string let, function-typed parameter called in callee position only, local alias of a top-level fn called in callee position only}; selected pairs in quick, all pairs in thorough) x 27 flows of the closure value from creation to call (returned by a function directly, in a tuple, in a tuple nested two and three deep and in either position, in a tuple that a second function wraps in another; let, rebind, tuple element, nested tuple literal / tuple of a tuple-typed variable / tuple of a call result, struct field in first / second / third position, array element, Ref content, Vec element, returned from fn, returned from closure, argument, argument called twice, branch result of if/match, generic apply, …) x variants {plain, captured name shadowed after creation, captured Ref mutated from both sides, called twice} x nesting depth 1 (thorough: 1-2). plus 32 programs with closures inside a generic function instantiated at three types (captures: none / values whose types do not mention T / a value of type T; body: a trait call on the parameter in path or dot form, followed by a concatenation, used twice; one let-bound closure or two closures in one function). plus functions that return a closure: 3 functions (plain, generic, returning the result of a second such function) x 6 uses of the result (bound then called, called directly 'mk(3)(4)', two results, inside another closure, as a tuple element, in a loop) x 4 places of the function (before its caller, after it, in another file of the package, in an imported package), and 3 programs with a closure that returns a closure; 6 closures inside a generic function whose own signature does not mention the type parameter (only captures / callees do), at 3 types; 11 programs using one let-bound closure as a function value inside a block and again after it or in the sibling block (if, else, loop body / condition, match arms, another closure, a tuple built in a branch); 4 projects of two packages with the same binder names, indices and closure types but different bodies. non-trivial = programs whose closure captures at least one variable; distinct = distinct source text"
     }
     fn cases(&self, tier: Tier) -> Box<dyn Iterator<Item = Value> + '_> {
         let mut v = Vec::new();
@@ -538,6 +586,9 @@ impl Family for Closures {
         }
         for (i, _) in returning_programs().iter().enumerate() {
             v.push(json!({"closure-returning": i}));
+        }
+        for (i, _) in more_programs().iter().enumerate() {
+            v.push(json!({"more-programs": i}));
         }
         let nestings: Vec<usize> = if tier == Tier::Quick { vec![1] } else { vec![1, 2] };
         for caps in capture_sets(tier) {
@@ -559,6 +610,9 @@ impl Family for Closures {
         } else if let Some(i) = case["closure-returning"].as_u64() {
             let (name, text, expected) = returning_programs()[i as usize].clone();
             Some((format!("closure-returning;{}", name), text, expected))
+        } else if let Some(i) = case["more-programs"].as_u64() {
+            let (name, text, expected) = more_programs()[i as usize].clone();
+            Some((name, text, expected))
         } else {
             None
         };
